@@ -57,6 +57,8 @@ MASS = [("kilogram", Fr(1)), ("gram", Fr(1, 1000))]
 WRONG = [(n, s) for n in ("molar", "second", "metre", "kilogram", "ampere", "kelvin", "mole") for s in (1, -1)]
 MODES = ["inline", "named", "unique"]
 SUBST = ["A", "B", "C"]
+# spellings of the state: 0..4 = every concentration in unit i; 5..9 = substance j in unit (i + j) mod 5 (mixed)
+STATE_SPELLINGS = dict(quick=[3, 5, 6, 7, 8, 9], thorough=list(range(10)))
 Y0 = {"A": Fr(1500), "B": Fr(250), "C": Fr(40)}  # mol/m3
 CREF = Fr(1500)
 TAU_END = Fr(1, 4)
@@ -96,8 +98,8 @@ def bounds(tier):
         registry_units=dict(length=sorted({LEN[r[0]][0] for r in regs}), time=sorted({RTIME[r[1]][0] for r in regs}),
                             amount=sorted({AMT[r[2]][0] for r in regs}), mass=sorted({MASS[r[3]][0] for r in regs})),
         modes=MODES + ["_create_odesys"],
-        state_spellings=10,
-        output_unit_choices=3,
+        state_spellings=STATE_SPELLINGS[tier],
+        integrations_per_mode={k: list(map(str, v)) for k, v in INTEGRATIONS[tier].items()},
         equilibria=len(EQS),
     )
 
@@ -424,9 +426,9 @@ def op_rate(res, shape, rc, mode, ks, ss):
                       % (case["shape"], case["registry"], case["k"], ss, obs, ref), case, obs, ref)
     else:
         res.outcomes["rate-ok|%s" % mode] += 1
-    if mode != "inline" and ss == 0:
+    if mode != "inline" and ss == 5:
         _check_p_units(res, case, mode, shape, ks, odesys, extra, p)
-    elif mode == "inline" and ss == 0:
+    elif mode == "inline" and ss == 5:
         res.evaluations += 1
         if list(odesys.param_names) or (extra["p_units"] not in ([], None) and len(extra["p_units"])):
             res.outcomes["p_units-inline-NOT-EMPTY"] += 1
@@ -443,7 +445,7 @@ def _layer_K(res, tier, shape, lo, hi):
         for mode in MODES:
             for ci in range(len(CONC)):
                 for ti in range(len(TIME)):
-                    for ss in range(10):
+                    for ss in STATE_SPELLINGS[tier]:
                         op_rate(res, shape, rc, mode, (ci, ti), ss)
     res.sample(dict(layer="K", shape=SHAPES[shape][0], registries=[_reg_text(r) for r in regs[lo:hi]][:2]))
 
@@ -486,6 +488,10 @@ def _t_end(shape, ks):
 
 
 OUTS = [None, "rot", "rot2"]
+# which output-unit choices are integrated per builder mode (None = registry units, rot/rot2 = requested units that
+# differ from both the registry's and the ones k is written in)
+INTEGRATIONS = dict(quick={"inline": (None, "rot"), "named": ("rot2",), "unique": (None,)},
+                    thorough={"inline": (None, "rot", "rot2"), "named": (None, "rot2"), "unique": (None, "rot")})
 
 
 def _out(outsel, ks):
@@ -583,7 +589,7 @@ def _layer_I(res, tier, shape, lo, hi):
         for mode in MODES:
             for ci in range(len(CONC)):
                 for ti in range(len(TIME)):
-                    for outsel in {"inline": (None, "rot"), "named": (None, "rot2"), "unique": ("rot",)}[mode]:
+                    for outsel in INTEGRATIONS[tier][mode]:
                         op_integrate(res, shape, rc, mode, (ci, ti), outsel)
     res.sample(dict(layer="I", shape=SHAPES[shape][0], reference_end_point=_reference(shape), tau_end=float(TAU_END)))
 
